@@ -382,3 +382,6 @@ func Bound(name string, quick int) int {
 
 // Timed reports whether the run uses the engine's timed semantics (never natively: real clocks jitter).
 func Timed() bool { return false }
+
+// Inside counts goroutines (other than the caller) that are inside a function whose name contains pattern.
+func Inside(pattern string) int { return Live(pattern) }
